@@ -534,8 +534,8 @@ def run(ctx):
     for fl in flavours(ctx):
         ctx.unit = fl
         ctx.doc('C01.12', 'native API forwarding: each public entry point of this property reaches the implementation of the same name with its parameters in order and returns its result (sibling slips such as trylock -> lock, signal -> broadcast, swapped arguments)')
-        lib.native_forwarding(ctx, 'C01.12', fl, lambda n: n in ('myth_create', 'myth_create_ex', 'myth_join', 'myth_exit', 'myth_self', 'myth_equal') or n.startswith('myth_thread_attr_'), floor=8)
-        rule1_attr(ctx, fl)
+        ctx.attempt(lib.native_forwarding, ctx, 'C01.12', fl, lambda n: n in ('myth_create', 'myth_create_ex', 'myth_join', 'myth_exit', 'myth_self', 'myth_equal') or n.startswith('myth_thread_attr_'), floor=8)
+        ctx.attempt(rule1_attr, ctx, fl)
         stops = ('myth_queue_push', 'myth_queue_pop', 'get_new_myth_thread_struct_desc',
                  'get_new_myth_thread_struct_stack', DESC_FREE, 'free_myth_thread_struct_stack',
                  'myth_get_current_env_noinline', 'myth_tls_tree_fini', 'myth_init_ex_body',
@@ -544,12 +544,12 @@ def run(ctx):
                  'myth_join_body', 'myth_tryjoin_body', 'myth_join_2', 'myth_join_3', 'myth_entry_point_cleanup',
                  'myth_entry_point_1', 'myth_entry_point_2']
         v = ctx.view(NATIVE, roots=roots, stops=stops, flavour=fl)
-        rule2_nullable(ctx, v)
-        rule3_publish(ctx, v)
-        rule4_invoke(ctx, v)
-        rule5_join(ctx, v)
-        rule6_finish(ctx, v)
-        rule7_spin(ctx, fl)
+        ctx.attempt(rule2_nullable, ctx, v)
+        ctx.attempt(rule3_publish, ctx, v)
+        ctx.attempt(rule4_invoke, ctx, v)
+        ctx.attempt(rule5_join, ctx, v)
+        ctx.attempt(rule6_finish, ctx, v)
+        ctx.attempt(rule7_spin, ctx, fl)
         # the joiner / finisher must not reuse the worker env obtained before it switched (shared with C12.3)
         from . import c12
         ctx.doc('C01.8', 'join / exit / thread entry: no worker-env pointer obtained before a context switch or before the '
@@ -571,7 +571,7 @@ def run(ctx):
                             'attribute runs and is reaped on a block of the allocated size'):
             v2 = ctx.view(NATIVE, roots=['get_new_myth_thread_struct_stack', c12.STACK_FREE, 'myth_flmalloc', 'myth_flfree'],
                           stops=('myth_freelist_pop', 'myth_freelist_push', 'myth_mmap'), flavour=fl)
-            c12.rule4_affine(ctx, v2)
+            ctx.attempt(c12.rule4_affine, ctx, v2)
         from . import c13, c02
         with ctx.shared({'C13.4': 'C01.10'}, floor=7,
                         doc='timed join (shared with C13.4): success only after a successful try, "busy" only past the deadline and '
@@ -579,12 +579,12 @@ def run(ctx):
             vt = ctx.view(NATIVE, roots=['myth_join_body', 'myth_tryjoin_body', 'myth_detach_body', 'myth_timedjoin_body'],
                           stops=('myth_queue_push', 'myth_queue_pop', DESC_FREE, 'myth_get_current_env_noinline', 'myth_tryjoin_body',
                                  'myth_timespec_gt', 'hr_gettime', 'myth_yield_ex_body') + lib.SPIN_STOPS, flavour=fl)
-            c13.rule4_timed(ctx, vt)
+            ctx.attempt(c13.rule4_timed, ctx, vt)
         with ctx.shared({'C02.6': 'C01.11'}, floor=10,
                         doc='a created thread that is taken from a run queue is always run (shared with C02.6): every result of a pop / '
                             'steal is tested and, when non-NULL, becomes the switch target, is re-queued or is returned; a popped thread '
                             'that is overwritten or forgotten is never invoked and its joiner waits forever'):
-            c02.rule6_nodrop(ctx, fl)
+            ctx.attempt(c02.rule6_nodrop, ctx, fl)
 
 
 SCHED = 'src/myth_sched_func.h'
